@@ -9,6 +9,8 @@
 //!    the byte range of a span-carrying scalar is exactly the node's source text; a type error at a
 //!    leaf carries the two locations a span-carrying value gives for that leaf; without aliases the
 //!    two locations coincide, with aliases the use site is an alias token.
+//!    The provoked type error has three origins (deserializer, Error::custom, Serde static constructors); fixed witnesses
+//!    for use sites that are not values (aliased key, merge of an aliased scalar).
 use crate::coq;
 use crate::ctx::{Ctx, Rng};
 use crate::deserk::{self, DOpts};
